@@ -16,15 +16,16 @@ import (
 // and the content-only Root (canonical table) of whatever the linearization left behind.
 
 type cop struct {
-	kind string // put del get has size
+	kind string // put del get has size stream commit
 	ki   int
 	vi   int8
 }
 
 type cout struct {
-	ok  bool // del: existed; get/has: present
-	vi  int8 // get: value index (-2 unknown value)
-	n   int  // size
+	ok  bool   // del: existed; get/has: present
+	vi  int8   // get: value index (-2 unknown value)
+	n   int    // size
+	c   string // stream: the reported contents, rendered like the model
 	err bool
 }
 
@@ -57,7 +58,8 @@ func conc(s *simrt.Sim, f *flavour) {
 	init := w.contents()
 	nclients := 2 + s.Choose(2)
 	var ops []*hx.LinOp
-	kinds := []string{"put", "put", "del", "del", "get", "has", "size"}
+	kinds := []string{"put", "put", "put", "del", "del", "get", "has", "size", "stream", "commit"}
+	commits := 0
 	for c := 0; c < nclients; c++ {
 		n := 1 + s.Choose(simrt.Bound(3, 4))
 		script := make([]cop, n)
@@ -97,6 +99,37 @@ func conc(s *simrt.Sim, f *flavour) {
 				case "size":
 					out.n = w.in.size()
 					lo.Desc = fmt.Sprintf("size -> %d", out.n)
+				case "stream":
+					seen := make([]int8, f.nkeys)
+					for i := range seen {
+						seen[i] = -1
+					}
+					bad := ""
+					err := w.in.stream(func(k key, v val) {
+						ki := w.keyIndex(k)
+						vi := int8(-1)
+						for i, x := range f.values {
+							if x == v {
+								vi = int8(i)
+							}
+						}
+						if ki < 0 || vi < 0 || seen[ki] >= 0 {
+							bad = fmt.Sprintf("entry (%x,%q) is foreign, has an unknown value or is reported twice", k[:], string(v))
+							return
+						}
+						seen[ki] = vi
+					})
+					out.err = err != nil
+					if bad != "" {
+						s.Fail("linearizability", w.sig("conc", "stream-entry"), "Stream under concurrent writers: %s", bad)
+					}
+					out.c = f.render(seen)
+					lo.Desc = fmt.Sprintf("stream -> %s", f.describe(out.c))
+				case "commit":
+					out.err = w.in.commit() != nil
+					commits++
+					s.Probe("commit-concurrent-with-other-callers")
+					lo.Desc = "commit"
 				}
 				if out.err {
 					s.Fail("error", w.sig("conc", op.kind), "%s returned an error on a healthy in-memory store", op.kind)
@@ -162,6 +195,10 @@ func conc(s *simrt.Sim, f *flavour) {
 			return st, !out.ok || f.isSet || b[in.ki] == '0'+byte(out.vi)
 		case "has":
 			return st, out.ok == present()
+		case "stream":
+			return st, out.c == st
+		case "commit":
+			return st, true
 		default:
 			return st, out.n == len(st)-strings.Count(st, "-")
 		}
@@ -173,6 +210,38 @@ func conc(s *simrt.Sim, f *flavour) {
 		}
 		sig := w.sig("conc")
 		s.Fail("linearizability", sig, "no sequential order of the calls explains the results, starting from contents %s:\n  %s", f.describe(init), strings.Join(lines, "\n  "))
+	}
+	// a Commit stores the tree together with its root: whatever else is pending, an instance opened over the store
+	// after some Commit has returned shows one consistent committed state - every key readable, and the Root that of
+	// the contents it reports
+	if commits > 0 {
+		in2 := f.open(w.store)
+		m2 := make([]int8, f.nkeys)
+		for i := range m2 {
+			m2[i] = -1
+		}
+		for _, ki := range w.palette {
+			v, ok, err := in2.get(universe[ki])
+			if err != nil {
+				s.Fail("reopen", w.sig("conc", "get-error"), "instance reopened after %d concurrent Commit calls: Get(%s) fails: %v", commits, label(ki), err)
+			}
+			if ok {
+				m2[ki] = -2
+				for i, x := range f.values {
+					if x == v || f.isSet {
+						m2[ki] = int8(i)
+						break
+					}
+				}
+			}
+		}
+		c2 := f.render(m2)
+		if r2, cr := in2.root(), f.canon[c2]; r2 != cr {
+			s.Fail("reopen", w.sig("conc", "root-of-committed-state"), "instance reopened after %d concurrent Commit calls reports contents %s but root %x; the root of these contents is %x", commits, f.describe(c2), r2[:6], cr[:6])
+		}
+		if c2 != w.contents() {
+			s.Probe("reopened-state-older-than-final-state")
+		}
 	}
 	// Stream lists exactly what the reads found
 	w.checkStream("conc-audit")
